@@ -970,7 +970,12 @@ func runScenario(sc *Scenario, seed uint64, wd *int64) (terms []string, cats []s
 					if c, ok := carrier[tid]; ok {
 						ctid = c
 					}
-					if v.Name != "" {
+					if v.Name != "" && ctid != tid {
+						// a named input of an interface type only accepts a value known under
+						// that interface type; a caller provides the implementation by type
+						args = append(args, am.Typed(mkVal(ctid, serial).Interface()))
+						given = append(given, fmt.Sprintf("(RTyped %s, mkV %s %s)", z(ctid), z(serial), z(ctid)))
+					} else if v.Name != "" {
 						args = append(args, am.Named(v.Name, mkVal(ctid, serial).Interface()))
 						given = append(given, fmt.Sprintf("(RNamed %s %s, mkV %s %s)", str(v.Name), z(tid), z(serial), z(ctid)))
 					} else {
